@@ -105,7 +105,9 @@ def checkE : Nat → Ctx → Expr → R Unit
       checkE fuel c rhs
       match lhs with
       | .ident l name _ =>
-        if c.scopes.any (·.contains name) then pure ()
+        -- assigning to a name inside the initialiser of its own `let`: which binding is meant is not documented
+        if c.pendingLet.contains name then throw .unc
+        else if c.scopes.any (·.contains name) then pure ()
         else if builtinNames.contains name then throw .unc
         else throw (.undefined l)
       | .index _ a i _ => do checkE fuel c a; checkE fuel c i
